@@ -1,4 +1,5 @@
 import Sif.Proofs.C06
+import Sif.Props.C05
 import Std.Data.String.ToInt
 /-
   C06 — each bridged Ethereum event is credited at most once, as agreed.
@@ -146,6 +147,45 @@ theorem credited_at_most_once (ord : List Group → List Group) (steps : List St
 /-- non-vacuity: three claims (two agreeing validators, then a late one) credit exactly once -/
 example : creditsOf id ⟨exVals, exState⟩ [.msg (exClaim 0 4), .msg (exClaim 1 4), .msg (exClaim 0 4), .msg (exClaim 1 4)]
     "150x1111111111111111111111111111111111111111" = [(4, "cusdc", 1000)] := by decide
+
+/-- **The credit is what the validators' messages said.**  When a claim message is accepted and reports SUCCESS, what
+    moves in the bank is the credit of a content that (a) is the recorded claim — i.e. the content of the accepted claim
+    message — of validators holding 70 % of the current whitelisted bonded power, with (b) receiver, amount and symbol
+    exactly as in those messages (`creditFromMessages`, also evaluated by the driver on the implementation with the
+    contents of the messages it sent).  `vclaims` of the stored prophecy is the ledger of the accepted messages' contents. -/
+theorem credit_supported_by_messages (ord : List Group → List Group) (hord : ∀ l, (ord l).Perm l)
+    (vals : List Validator) (s : BState) (m : ClaimMsg) (hv : Spec.C05.ValsWF vals) (hwf : OStateWF s.oracle)
+    (h : (deliver ord vals s (.claim m)).2 = .claimed .success)
+    (keys : List (Nat × String)) (denoms : List String) :
+    ∃ p', getProphecy (deliver ord vals s (.claim m)).1.oracle.prophecies (claimOf m).id = some p' ∧
+      creditFromMessages vals (deliver ord vals s (.claim m)).1.oracle.whitelist p'.vclaims
+        s.bank.bal (deliver ord vals s (.claim m)).1.bank.bal s.bank.supply (deliver ord vals s (.claim m)).1.bank.supply
+        keys denoms = true := by
+  obtain ⟨c, hcred, _, hbal, hsup⟩ := credit_matches_final ord vals s m h
+  rcases deliver_claim_cases ord vals s m with ⟨f, hd⟩ | ⟨s', status, hc, hd⟩
+  · rw [hd] at h; cases h
+  · rw [hd] at h hcred hbal hsup ⊢
+    cases h
+    obtain ⟨o, fin, hp, eo, _⟩ := createClaim_ok hc
+    obtain ⟨p', hget, hst, hfin, _, hineq, hpos⟩ := Sif.Props.C05.success_needs_threshold ord hord vals s.oracle o (claimOf m) fin hv hwf hp
+    obtain ⟨_, _, fa⟩ := processClaim_status hp
+    simp only at hcred hbal hsup ⊢
+    rw [eo] at hcred ⊢
+    rw [fa] at hcred
+    refine ⟨p', hget, ?_⟩
+    unfold creditFromMessages
+    apply Bool.or_eq_true_iff.mpr
+    right
+    rw [List.any_eq_true]
+    refine ⟨fin, ?_, ?_⟩
+    · unfold winners
+      rw [List.mem_filter]
+      refine ⟨?_, by simp [hineq, hpos]⟩
+      rw [List.mem_eraseDups]
+      exact support_pos_mem vals o.whitelist p'.vclaims fin (by omega)
+    · rw [hcred]
+      simp only [creditedOn, Bool.and_eq_true, List.all_eq_true, beq_iff_eq]
+      exact ⟨fun k _ => hbal k.1 k.2, fun d _ => hsup d⟩
 
 /-- Panics and errors are confined by the transaction wrapper: a claim message that fails for whatever reason
     (negative amount, invalid denomination, blocked receiver ⇒ `panic(err)`, unspecified claim type ⇒ error)
